@@ -50,23 +50,6 @@ pub mod error {
 ///    "c-def0": {
 ///      "default": "",
 ///      "type": "string"
-///    },
-///    "dDef": {
-///      "default": "x y",
-///      "type": "string"
-///    },
-///    "e-null": {
-///      "type": [
-///        "string",
-///        "null"
-///      ]
-///    },
-///    "fNullDef": {
-///      "default": "x y",
-///      "type": [
-///        "string",
-///        "null"
-///      ]
 ///    }
 ///  }
 ///}
@@ -84,16 +67,6 @@ pub struct G {
     pub b_opt: ::std::option::Option<::std::string::String>,
     #[serde(rename = "c-def0", default)]
     pub c_def0: ::std::string::String,
-    #[serde(rename = "dDef", default = "defaults::g_d_def")]
-    pub d_def: ::std::string::String,
-    #[serde(
-        rename = "e-null",
-        default,
-        skip_serializing_if = "::std::option::Option::is_none"
-    )]
-    pub e_null: ::std::option::Option<::std::string::String>,
-    #[serde(rename = "fNullDef", default = "defaults::g_f_null_def")]
-    pub f_null_def: ::std::option::Option<::std::string::String>,
 }
 impl ::std::convert::From<&G> for G {
     fn from(value: &G) -> Self {
@@ -128,14 +101,5 @@ impl ::std::convert::From<&Renamed> for Renamed {
 impl ::std::default::Default for Renamed {
     fn default() -> Self {
         Self { q: Default::default() }
-    }
-}
-/// Generation of default values for serde.
-pub mod defaults {
-    pub(super) fn g_d_def() -> ::std::string::String {
-        "x y".to_string()
-    }
-    pub(super) fn g_f_null_def() -> ::std::option::Option<::std::string::String> {
-        ::std::option::Option::Some("x y".to_string())
     }
 }
